@@ -153,6 +153,9 @@ class ConcreteCtx(_Base):
     def to_str(self, obj):
         return str(obj)
 
+    def hash(self, obj):
+        return hash(obj)
+
     def ord1(self, ch):
         return ord(ch)
 
@@ -349,6 +352,10 @@ def make_symctx_class():
         def to_str(self, obj):
             r = type(obj).__str__(obj)
             return r
+
+        def hash(self, obj):
+            """the library object's own __hash__ result (a hash token comparing like the hashed bytes)"""
+            return type(obj).__hash__(obj)
 
         def ord1(self, ch):
             if isinstance(ch, vtypes.VStr):
